@@ -7,6 +7,41 @@ import "strings"
 // Any represent any type
 type Any interface{}
 
+const hexDigits = "0123456789abcdef"
+
+// formatStringJSON return s as a JSON string literal. Quotation mark, reverse solidus and
+// control characters (U+0000 - U+001F) are escaped (RFC 8259, section 7).
 func formatStringJSON(s string) string {
-	return "\"" + strings.Replace(s, "\"", "\\\"", -1) + "\""
+	var sb strings.Builder
+	sb.Grow(len(s) + 2)
+	sb.WriteByte('"')
+	for i := 0; i < len(s); i++ {
+		c := s[i]
+		switch c {
+		case '"':
+			sb.WriteString("\\\"")
+		case '\\':
+			sb.WriteString("\\\\")
+		case '\n':
+			sb.WriteString("\\n")
+		case '\r':
+			sb.WriteString("\\r")
+		case '\t':
+			sb.WriteString("\\t")
+		case '\b':
+			sb.WriteString("\\b")
+		case '\f':
+			sb.WriteString("\\f")
+		default:
+			if c < 0x20 {
+				sb.WriteString("\\u00")
+				sb.WriteByte(hexDigits[c>>4])
+				sb.WriteByte(hexDigits[c&0xf])
+			} else {
+				sb.WriteByte(c)
+			}
+		}
+	}
+	sb.WriteByte('"')
+	return sb.String()
 }
